@@ -463,7 +463,7 @@ def report_violations(agg, max_reports=int(os.environ.get('VERIF_MAX_REPORTS', 4
         if nviol >= max_reports:
             nviol += 1
             continue
-        if nmin >= 10:
+        if nmin >= 10 or os.environ.get('VERIF_NO_MINIMISE'):
             # enough minimised examples: the rest is matched against the
             # known findings on the unminimised plan, and reported with it
             v0 = item['violations'][0]
@@ -594,6 +594,12 @@ def run_tier(tier, seed, workers, budget_s, n_worlds, n_exec, n_real, n_traced=0
                     else:
                         agg.add_world(r)
                     done_count += 1
+                if agg.violations and os.environ.get('VERIF_STOP_AT_FIRST'):
+                    # sensitivity self-test: the question is only whether
+                    # anything is found; do not explore the rest
+                    ex.shutdown(wait=True, cancel_futures=True)
+                    agg.stopped_early = True
+                    break
                 refill()
     finally:
         shutil.rmtree(scratch, ignore_errors=True)
